@@ -21,6 +21,7 @@ import (
 	"github.com/consensys/gnark/frontend"
 	"github.com/consensys/gnark/internal/kvstore"
 	"github.com/consensys/gnark/std/internal/logderivarg"
+	"github.com/consensys/gnark/std/rangecheck"
 )
 
 type ctxPrecomputedKey struct{ fn uintptr }
@@ -83,6 +84,12 @@ func (t *Precomputed) Query(x, y frontend.Variable) []frontend.Variable {
 	rets, err := t.api.Compiler().NewHint(t.compute, len(t.rets), x, y)
 	if err != nil {
 		panic(err)
+	}
+	// the outputs come from a hint: without a width check a prover could choose an out-of-range
+	// value that makes the packed query collide with another row of the table
+	rchecker := rangecheck.New(t.api)
+	for i := range rets {
+		rchecker.Check(rets[i], int(t.rets[i]))
 	}
 	packed := t.pack(x, y, rets)
 	t.queries = append(t.queries, packed)
